@@ -147,7 +147,8 @@ class IdentitySpec(Spec):
     prop = "C06"
     harness = "identity"
     level = "exploration"
-    batch = 20
+    batch = 10
+    quick_budget = 34.0
     rule = ("one run = a seeded history (2-13 steps) of connects and disconnects by several participants mixing entry "
             "points (real Client.connect, real client_context, raw CONNECT, raw CONNECT_V2, raw CONNECT_V2+CONNECT), "
             "requested ids (0, in range, 1, 99, 100, 101, 200, -1, 32767), allow_multiple / logger / daemon flags and "
@@ -203,7 +204,7 @@ class StatsSpec(Spec):
     harness = "stats"
     level = "exploration"
     batch = 4
-    quick_budget = 28.0
+    quick_budget = 24.0
     rule = ("one run = 1-4 publishers (distinct ids and pids, static / dynamic / shared ids) emit, per reporting interval, "
             "a chosen multiset of message types (0, 1, 2, 63, 64, 65, 128, 129 or 300 distinct types, 1-300 each, "
             "occasionally one type 40000-65535 times; types at 0, 9999, 10000 and -1) while the virtual clock is "
